@@ -12,9 +12,9 @@ CONSTANTS
   AsymThrPm = 2000
   Age = 2
   MinObs = 1
-  MaxT = 3
+  MaxT = 2
   MaxOps = 4
-  OpSet = {"join", "joinnoip", "leave", "analyze", "clear", "cleanup"}
+  OpSet = {"join", "leave", "analyze", "clear", "cleanup"}
   Lats = {0}
   Sizes = {0}
   Claims = {0}
